@@ -42,23 +42,44 @@ def _params(fn, drop_self):
     pos = [x.arg for x in a.posonlyargs + a.args]
     for pn, d in zip(pos[len(pos) - len(a.defaults):], a.defaults):
         defaults[pn] = d
-    if a.vararg or a.kwarg or a.kwonlyargs:
+    if a.vararg:
         return None, None
+    npos = len(names)
+    for x, d in zip(a.kwonlyargs, a.kw_defaults):
+        names.append(x.arg)
+        if d is not None:
+            defaults[x.arg] = d
+    if a.kwonlyargs:
+        defaults["*npos"] = npos
+    if a.kwarg:
+        # **extra collects the keywords that name no parameter: bound to a dict display of them
+        names.append(a.kwarg.arg)
+        defaults["**"] = a.kwarg.arg
+        defaults.setdefault("*npos", npos)
     return names, defaults
 
 
 def _bind(call, names, defaults):
     if any(isinstance(x, ast.Starred) for x in call.args) or any(k.arg is None for k in call.keywords):
         return None
-    if len(call.args) > len(names):
+    if len(call.args) > defaults.get("*npos", len(names)):
         return None
     m = {}
+    extra = []
+    kwname = defaults.get("**")
     for n, a in zip(names, call.args):
         m[n] = a
     for k in call.keywords:
-        if k.arg not in names or k.arg in m:
+        if k.arg in m or k.arg == kwname and kwname is not None:
             return None
+        if k.arg not in names:
+            if kwname is None:
+                return None
+            extra.append(k)
+            continue
         m[k.arg] = k.value
+    if kwname is not None:
+        m[kwname] = ast.Dict(keys=[ast.Constant(k.arg) for k in extra], values=[k.value for k in extra])
     for n in names:
         if n not in m:
             if n in defaults:
